@@ -165,7 +165,7 @@ Form3(f, Xh) ==     \* [recv, stmts]
           [] f = 28 -> <<SAug("*", TVar("r"), Xh)>>
           [] f = 29 -> <<SAug("%", TVar("r"), Xh)>>]
 (* the forms with three holes (the third written like the second) *)
-NB4 == 26
+NB4 == 28
 Form4(f, Xh, Yh, Zh) ==
     CASE f = 1  -> Sl(Xh, Yh, Zh, ABSENT)
       [] f = 2  -> Sl(Xh, ABSENT, Yh, Zh)
@@ -193,6 +193,8 @@ Form4(f, Xh, Yh, Zh) ==
       [] f = 24 -> AIndex(ADict(<<Xh>>, <<Yh>>), Zh)
       [] f = 25 -> ADict(<<Xh, Zh>>, <<Yh, Yh>>)
       [] f = 26 -> ABin("in", Zh, AList(<<Xh, Yh>>))
+      [] f = 27 -> MC(Xh, "startswith", <<Yh, Zh>>)
+      [] f = 28 -> MC(Xh, "endswith", <<Yh, Zh>>)
 
 (* ---- a case as a chunk *)
 Hole(i, mode, pname) == IF mode = "l" THEN Cat[i].e ELSE AVar(pname)
